@@ -126,7 +126,7 @@ func c16WellFormed(w []string) bool {
 		return true
 	case "ungrp", "save":
 		return n == 1
-	case "defn":
+	case "defn", "deln":
 		return n == 3 && c16IsInt(w[1], false) && c16IsHex(w[2])
 	case "setc":
 		return n == 3 && c16IsHex(w[1]) && c16IsInt(w[2], false)
@@ -347,6 +347,27 @@ func (b *c16Book) apply(w []string) (ok bool, idx int) {
 		}
 		b.defs = append(b.defs, c16Def{name, key})
 		return true, 0
+	case "deln":
+		name := "dn_" + w[1]
+		scope := unhx(w[2])
+		key := 0
+		if scope != "" && scope != "Workbook" {
+			if !c16Valid(scope) {
+				return false, 0
+			}
+			i := b.find(scope)
+			if i < 0 {
+				return false, 0
+			}
+			key = b.ents[i].key
+		}
+		for i, d := range b.defs {
+			if d.key == key && d.name == name {
+				b.defs = append(b.defs[:i:i], b.defs[i+1:]...)
+				return true, 0
+			}
+		}
+		return false, 0
 	case "setc":
 		n := unhx(w[1])
 		v, _ := strconv.Atoi(w[2])
@@ -535,6 +556,8 @@ func c16Exec(f *xl.File, w []string) (res string) {
 		return e(f.UngroupSheets())
 	case "defn":
 		return e(f.SetDefinedName(&xl.DefinedName{Name: "dn_" + w[1], RefersTo: "1/2", Scope: unhx(w[2])}))
+	case "deln":
+		return e(f.DeleteDefinedName(&xl.DefinedName{Name: "dn_" + w[1], Scope: unhx(w[2])}))
 	case "setc":
 		v, _ := strconv.Atoi(w[2])
 		return e(f.SetCellInt(unhx(w[1]), "A1", int64(v)))
@@ -909,6 +932,12 @@ func (g *c16Gen) next() string {
 		if g.r.Chance(20) {
 			sc = ""
 		}
+		if g.r.Chance(5) {
+			sc = "Workbook"
+		}
+		if g.r.Chance(25) {
+			return fmt.Sprintf("deln %d %s", g.r.Intn(4), hx(sc))
+		}
 		return fmt.Sprintf("defn %d %s", g.r.Intn(4), hx(sc))
 	case k < 99:
 		return fmt.Sprintf("setc %s %d", hx(g.anyName()), 1+g.r.Intn(999))
@@ -924,7 +953,9 @@ var c16Witnesses = [][]string{
 	{"reset", "new 42", "new 43", "vis 42 0 0", "vis 43 0 1", "act 1", "vis 536865657431 0 1", "vis 536865657431 0 0"},
 	{"reset", "new 42", "vis 42 0 0", "del 536865657431", "new 43", "del 536865657431"},
 	{"reset", "new 41", "new 42", "new 43", "defn 0 41", "defn 1 43", "defn 2 536865657431", "move 43 41", "move 536865657431 43", "move 41 536865657431", "del 42", "save"},
-	{"reset", "new 576f726b626f6f6b", "defn 0 576f726b626f6f6b", "defn 0 -", "defn 1 6e6f73756368", "new 61", "defn 2 41", "defn 2 61", "defn 2 -", "del 61", "defn 2 61"},
+	{"reset", "new 576f726b626f6f6b", "defn 0 576f726b626f6f6b", "defn 0 -", "defn 1 6e6f73756368", "new 61", "defn 2 41", "defn 2 61", "defn 2 -", "deln 2 41", "deln 2 41", "deln 0 576f726b626f6f6b", "deln 7 -", "deln 2 6e6f73756368", "defn 2 61", "del 61", "defn 2 61", "deln 2 -", "deln 2 -"},
+	// the active last sheet is deleted, then a sheet is created: bookViews.activeTab must stay inside the list
+	{"reset", "new 42", "act 1", "del 42", "new 43", "act 1", "del 43", "del 536865657431", "new 44", "new 45", "act 2", "del 45", "del 44"},
 	{"reset", "ren 536865657431 7368656574310a", "ren 536865657431 736865657431", "ren 736865657431 534845455431", "new 736865657431"},
 }
 
@@ -1053,6 +1084,112 @@ func (s *c16Session) reopen() {
 	// saving must not disturb the bookkeeping (the save itself goes through the transcript as `save`)
 }
 
+// c16Quote writes a sheet name the way references do.
+func c16Quote(n string, quoted bool) string {
+	if quoted {
+		return "'" + n + "'"
+	}
+	return n
+}
+
+// c16RenameTextProbe: defined names referring to two sheets, one of them renamed.
+func c16RenameTextProbe(r *Run, rng *Rng) {
+	pool := []string{"a", "B", "Data", "Sheet2", "my sheet", "Q1-2024", "tab(1)", "x.y", "表", "R1C1"}
+	src, other, tgt := rng.Pick(pool), rng.Pick(pool), rng.Pick(pool)+"_n"
+	if c16Fold(src) == c16Fold(other) || c16Fold(src) == "sheet1" || c16Fold(other) == "sheet1" {
+		return
+	}
+	f := xl.NewFile()
+	defer f.Close()
+	f.NewSheet(src)
+	f.NewSheet(other)
+	type ref struct {
+		sheet  string
+		quoted bool
+		cell   string
+	}
+	mk := func() ref {
+		sh := src
+		switch rng.Intn(4) {
+		case 0:
+			sh = other
+		case 1:
+			sh = c16Upper(src) + "x" // a longer name containing the source
+		}
+		return ref{sh, rng.Bool(), rng.Pick([]string{"$A$1", "A1:B2", "$A:$A", "$1:$1", "C3"})}
+	}
+	render := func(rs []ref, from, to string) string {
+		var parts []string
+		for _, x := range rs {
+			n := x.sheet
+			if n == from {
+				n = to
+			}
+			parts = append(parts, c16Quote(n, x.quoted)+"!"+x.cell)
+		}
+		return strings.Join(parts, ",")
+	}
+	var all [][]ref
+	for k := 0; k < 3; k++ {
+		rs := []ref{mk()}
+		if rng.Bool() {
+			rs = append(rs, mk())
+		}
+		all = append(all, rs)
+		scope := ""
+		if k == 1 {
+			scope = src
+		}
+		if err := f.SetDefinedName(&xl.DefinedName{Name: fmt.Sprintf("dn_%d", k), RefersTo: render(rs, "", ""), Scope: scope}); err != nil {
+			return
+		}
+	}
+	if err := f.SetSheetName(src, tgt); err != nil {
+		return
+	}
+	r.Stat("probe:rename-text")
+	r.Case(fmt.Sprintf("rename-text:%s:%s:%v", src, tgt, all), true)
+	got := f.GetDefinedName()
+	for k, rs := range all {
+		want := render(rs, src, tgt)
+		if k >= len(got) || got[k].RefersTo != want {
+			g := "<missing>"
+			if k < len(got) {
+				g = got[k].RefersTo
+			}
+			r.Fail("rename-defname-text", fmt.Sprintf("sheets %q,%q: after SetSheetName(%q,%q) defined name %d refers to %q, expected %q (was %q)",
+				src, other, src, tgt, k, g, want, render(rs, "", "")), 0, fmt.Sprintf("probe rename-text\n# random probe: src=%s other=%s tgt=%s refs=%v", hx(src), hx(other), hx(tgt), all))
+			return
+		}
+		if k == 1 && got[k].Scope != tgt {
+			r.Fail("rename-defname-scope", fmt.Sprintf("after SetSheetName(%q,%q) the scope of a name scoped to the renamed sheet is %q", src, tgt, got[k].Scope), 0,
+				fmt.Sprintf("# probe rename-text src=%s tgt=%s", hx(src), hx(tgt)))
+			return
+		}
+	}
+}
+
+// c16RenameTextFixed is the deterministic witness of the repaired defect "SetSheetName strips the quotes
+// of the other quoted sheet names in defined names" (replay line: `probe rename-text`).
+func c16RenameTextFixed(r *Run) {
+	f := xl.NewFile()
+	defer f.Close()
+	f.NewSheet("x.y")
+	f.NewSheet("my sheet")
+	_ = f.SetDefinedName(&xl.DefinedName{Name: "dn_0", RefersTo: "'x.y'!$A$1,'my sheet'!$A$1:'my sheet'!$B$2,x.y!C3"})
+	_ = f.SetSheetName("x.y", "a_n")
+	r.Stat("probe:rename-text-witness")
+	r.Case("rename-text-witness", true)
+	want := "'a_n'!$A$1,'my sheet'!$A$1:'my sheet'!$B$2,a_n!C3"
+	if got := f.GetDefinedName(); len(got) != 1 || got[0].RefersTo != want {
+		g := "<missing>"
+		if len(got) == 1 {
+			g = got[0].RefersTo
+		}
+		r.Fail("rename-defname-text", fmt.Sprintf("after SetSheetName(\"x.y\",\"a_n\") the defined name refers to %q, expected %q", g, want), 0, "probe rename-text")
+	}
+}
+
 func runC16(r *Run, rng *Rng, replay string) {
 	r.Rule = "cases = call histories on a fresh workbook + single checkSheetName probes; a history is non-trivial when at least 3 of its calls changed the observable sheet list (order, names, visibility, A1 content, selection or active index), a probe always; distinct = distinct op sequences / distinct probed strings"
 	s := &c16Session{r: r}
@@ -1061,6 +1198,10 @@ func runC16(r *Run, rng *Rng, replay string) {
 		for _, l := range readLines(replay) {
 			l = strings.TrimSpace(l)
 			if l == "" || strings.HasPrefix(l, "#") {
+				continue
+			}
+			if l == "probe rename-text" {
+				c16RenameTextFixed(r)
 				continue
 			}
 			s.line(l)
@@ -1139,6 +1280,16 @@ func runC16(r *Run, rng *Rng, replay string) {
 		if h < 3 {
 			r.Sample(strings.Join(s.hist, " ; "))
 		}
+	}
+	// 4. oracle-only probe (not modelled in Lean): SetSheetName rewrites the sheet-name components of
+	// defined-name references that equal the old name exactly, and nothing else
+	np := 150
+	if r.Tier == "thorough" {
+		np = 1500
+	}
+	c16RenameTextFixed(r)
+	for i := 0; i < np; i++ {
+		c16RenameTextProbe(r, rng)
 	}
 	// malformed lines: the driver must answer bad-op
 	for _, l := range []string{"new", "new zz", "copy a b", "vis 61", "frobnicate 1", "act x", "setc 61 -3", "defn x 61"} {
